@@ -129,13 +129,14 @@ package route
 //@ func (route *ConsistentHashing) Dispatch(buf []byte)
 //@   property C01,C15
 //@   requires typeIs(baseConf(route.baseRoute), consistentHashingConfig) && chConf(route).Hasher != nil
-//@   requires len(chConf(route).Hasher.Ring) > 0 && ringSorted(chConf(route).Hasher) && destsWf(chConf(route).baseConfig.dests)
+//@   requires ringSorted(chConf(route).Hasher) && destsWf(chConf(route).baseConfig.dests)
 //@   requires forall k int :: 0 <= k && k < len(chConf(route).Hasher.Ring) ==> 0 <= chConf(route).Hasher.Ring[k].DestinationIndex && chConf(route).Hasher.Ring[k].DestinationIndex < len(chConf(route).baseConfig.dests)
 //@   let h  := chConf(route).Hasher
 //@   let d  := chConf(route).baseConfig.dests
 //@   let B  := buf[..]
 //@   modifies allof("chan:[]uint8#sent")
-//@   ensures[owner_only] bindex(B, 32) > 0 ==> (exists idx int :: isOwner(h, idx, ringPos(nameOf(B))) && (forall j int :: 0 <= j && j < len(d) ==>
+//@   ensures[empty_ring_is_safe; C14] len(h.Ring) == 0 ==> (forall ch ref :: sentAt("[]uint8", ch) == old(sentAt("[]uint8", ch)))
+//@   ensures[owner_only] len(h.Ring) > 0 && bindex(B, 32) > 0 ==> (exists idx int :: isOwner(h, idx, ringPos(nameOf(B))) && (forall j int :: 0 <= j && j < len(d) ==>
 //@        sent(d[j].In) == (j == h.Ring[idx].DestinationIndex ? old(sent(d[j].In)) ++ elemOf(buf) : old(sent(d[j].In)))))
 //@   ensures[no_other]   forall ch ref :: (forall j int :: 0 <= j && j < len(d) ==> d[j].In != ch) ==> sentAt("[]uint8", ch) == old(sentAt("[]uint8", ch))
 //@   ensures[unparsable] bindex(B, 32) <= 0 ==> (forall ch ref :: sentAt("[]uint8", ch) == old(sentAt("[]uint8", ch)))
